@@ -3,9 +3,10 @@ From AB Require Import Model.ClientState Spec.C11 Proofs.ClientStateProofs.
 
 (* for every request-start state and every handler program (any length, any
    interleaving of put/del/delall on either store, reads, header and body writes,
-   through any wrapper depth) the writer's trace is the specification's *)
+   through any wrapper depth, with any store made to fail at any point) the writer's
+   trace is the specification's *)
 Theorem c11_trace : forall sess0 cook0 (p : list op),
-  cs_trace sess0 cook0 p = c11_spec sess0 cook0 p.
+  cs_trace sess0 cook0 p = c11_spec_f sess0 cook0 p.
 Proof. exact c11_trace_lemma. Qed.
 Print Assumptions c11_trace.
 
@@ -25,8 +26,11 @@ Theorem c11_delivered : forall sess0 cook0 st (p : list op) l,
 Proof. exact c11_delivered_lemma. Qed.
 Print Assumptions c11_delivered.
 
+(* the call is made (even if it then fails) — for the session store always, for the
+   cookie store unless the session call was made and failed *)
 Theorem c11_delivery_complete : forall sess0 cook0 st (p : list op),
   existsb is_write p = true -> evs_of st (pre p) <> [] ->
+  (st = Sess \/ evs_of Sess (pre p) = [] \/ fails Sess p = false) ->
   In (TStore st (evs_of st (pre p))) (cs_trace sess0 cook0 p).
 Proof. exact c11_delivery_complete_lemma. Qed.
 Print Assumptions c11_delivery_complete.
@@ -37,11 +41,42 @@ Proof. exact c11_reads_stable_lemma. Qed.
 Print Assumptions c11_reads_stable.
 
 (* the predicate the correspondence check evaluates on the implementation's traces
-   is satisfied by the model on every program *)
+   is satisfied by the model on every program, with or without failing stores *)
 Theorem c11_model_ok : forall sess0 cook0 (p : list op),
   c11_ok sess0 cook0 p (cs_trace sess0 cook0 p) = true.
 Proof. exact c11_model_ok_lemma. Qed.
 Print Assumptions c11_model_ok.
+
+(* ---- the stores' failure path ---- *)
+
+(* wherever the session call is immediately followed by the flush error: the cookie
+   store is never called in the whole program; what precedes the call is the reads of
+   the pre-write prefix (nothing released); what follows the error is the plain
+   effect of the operations after the triggering write — that write contributed the
+   call and the error and released nothing *)
+Theorem c11_failed_session_store : forall sess0 cook0 (p : list op) a l f b,
+  cs_trace sess0 cook0 p = a ++ TStore Sess l :: f :: b -> is_failure f = true ->
+  (forall l', ~ In (TStore Cook l') (cs_trace sess0 cook0 p)) /\
+  a = flat_map (plain sess0 cook0) (pre p) /\ filter is_release a = [] /\
+  b = flat_map (plain sess0 cook0) (tl (post p)).
+Proof. exact c11_failed_session_store_lemma. Qed.
+Print Assumptions c11_failed_session_store.
+
+(* whichever store failed: everything after the error is the plain effect of the
+   later operations on the underlying writer, with no store call — the events are
+   not delivered a second time, however many times the handler writes *)
+Theorem c11_failed_flush_not_retried : forall sess0 cook0 (p : list op) a f b,
+  cs_trace sess0 cook0 p = a ++ f :: b -> is_failure f = true ->
+  b = flat_map (plain sess0 cook0) (tl (post p)) /\
+  (forall st, filter (is_store st) b = []).
+Proof. exact c11_failed_flush_not_retried_lemma. Qed.
+Print Assumptions c11_failed_flush_not_retried.
+
+(* a program that injects no failure has the trace of the fault-free equation *)
+Theorem c11_fault_free_unchanged : forall sess0 cook0 (p : list op),
+  no_fail p = true -> cs_trace sess0 cook0 p = c11_spec sess0 cook0 p.
+Proof. exact c11_fault_free_lemma. Qed.
+Print Assumptions c11_fault_free_unchanged.
 
 (* non-vacuity: a concrete program with events on both stores, two writes and a read *)
 Example c11_example :
@@ -49,4 +84,29 @@ Example c11_example :
   cs_trace [(k, v)] [] [OGet Sess k; OEv Sess (Put k v) 0; OEv Cook (Del k) 2; OWriteHeader 200 1;
                         OEv Sess (Del k) 0; OWrite v 0; OGet Sess k]
   = [TGet Sess k (Some v); TStore Sess [Put k v]; TStore Cook [Del k]; THdr 200; TBody v; TGet Sess k (Some v)].
+Proof. reflexivity. Qed.
+
+(* a failing cookie store: both stores are called, the header write panics and
+   releases nothing, the second write goes straight through with no store call *)
+Example c11_example_cookie_fails :
+  let k := ["u"%byte] in let v := ["1"%byte] in
+  cs_trace [(k, v)] [] [OEv Sess (Put k v) 0; OFailNext Cook; OEv Cook (Del k) 2; OWriteHeader 200 1;
+                        OEv Sess (Del k) 0; OWrite v 0; OGet Sess k]
+  = [TStore Sess [Put k v]; TStore Cook [Del k]; TPanic; TBody v; TGet Sess k (Some v)].
+Proof. reflexivity. Qed.
+
+(* a failing session store: the cookie store is not called, the body write returns
+   the error, the later header write is not preceded by any store call *)
+Example c11_example_session_fails :
+  let k := ["u"%byte] in let v := ["1"%byte] in
+  cs_trace [] [] [OFailNext Sess; OEv Cook (Del k) 0; OEv Sess (Put k v) 0; OWrite v 0;
+                  OWriteHeader 200 0; OWrite v 0]
+  = [TStore Sess [Put k v]; TErr; THdr 200; TBody v].
+Proof. reflexivity. Qed.
+
+(* a pending failure of a store that has no event is not consumed and changes nothing *)
+Example c11_example_unused_failure :
+  let k := ["u"%byte] in let v := ["1"%byte] in
+  cs_trace [] [] [OFailNext Sess; OEv Cook (Del k) 0; OWrite v 0]
+  = [TStore Cook [Del k]; TBody v].
 Proof. reflexivity. Qed.
